@@ -127,6 +127,21 @@ var fedShapes = []fedShape{
 		},
 		lookups: func(i int) string { return "EpsilonByUpc:u" + sfx(i) },
 	},
+	{ // 19 compound key: a nested field, then a plain one
+		rep: func(i int) map[string]any {
+			return map[string]any{"__typename": "Kappa", "owner": map[string]any{"id": "ko" + sfx(i)}, "sku": "ks" + sfx(i)}
+		},
+		want: func(i int) string {
+			return `{"__typename":"Kappa","note":"note-ko` + sfx(i) + `/ks` + sfx(i) + `","owner":{"id":"ko` + sfx(i) + `"},"sku":"ks` + sfx(i) + `"}`
+		},
+		lookups: func(i int) string { return "KappaByOwnerIDAndSku:ko" + sfx(i) + "/ks" + sfx(i) },
+	},
+	{ // 20 the same with the plain field missing
+		rep: func(i int) map[string]any {
+			return map[string]any{"__typename": "Kappa", "owner": map[string]any{"id": "ko" + sfx(i)}}
+		},
+		want: func(i int) string { return "null" },
+	},
 	{ // 17 an entity that is nothing but its key
 		rep:     func(i int) map[string]any { return map[string]any{"__typename": "Theta", "id": "t" + sfx(i)} },
 		want:    func(i int) string { return `{"__typename":"Theta","id":"t` + sfx(i) + `"}` },
@@ -249,4 +264,48 @@ func Harness_C20_entities() {
 		zzsym.Assert(got.nerr >= 1, "a failed representation is reported")
 	}
 	zzsym.Reach("c20.compared")
+}
+
+// Harness_C20_longLists: long lists (8..40 representations, around the
+// powers of two a worker pool would be sized by) of one single-lookup type,
+// of the batch type, or alternating between three types, at most one lookup
+// failing: element i is the entity of representation i.
+func Harness_C20_longLists() {
+	n := []int{8, 15, 16, 17, 31, 32, 33, 40}[zzsym.Choice("n", 8)]
+	mix := zzsym.Choice("mix", 3) // 0: one single-lookup type, 1: the batch type, 2: alternating Alpha / Beta / Gamma
+	w := &fedWorld{fault: map[string]int{}, budget: 0}
+	failAt := -1
+	if mix != 1 && zzsym.Choice("fail", 2) == 1 {
+		failAt = []int{0, n / 2, n - 1}[zzsym.Choice("failAt", 3)]
+	}
+	reps := make([]any, n)
+	shapes := make([]int, n)
+	for i := 0; i < n; i++ {
+		switch mix {
+		case 0:
+			shapes[i] = 0
+		case 1:
+			shapes[i] = 2
+		default:
+			shapes[i] = []int{0, 2, 4}[i%3]
+		}
+		reps[i] = fedShapes[shapes[i]].rep(i)
+		if i == failAt && fedShapes[shapes[i]].lookups != nil {
+			w.fault[fedShapes[shapes[i]].lookups(i)] = 1
+		}
+	}
+	got := fedRun(w, reps)
+	zzsym.Assert(!got.isNull && len(got.list) == n, "_entities answers with one element per representation")
+	failed := 0
+	for i := 0; i < n; i++ {
+		s := fedShapes[shapes[i]]
+		want := s.want(i)
+		if i == failAt && s.lookups != nil {
+			want = "null"
+			failed++
+		}
+		zzsym.Assert(canon(got.list[i]) == want, "element i is the entity resolved from representation i (null iff that one failed)")
+	}
+	zzsym.Assert(got.nerr == failed, "one error per failed representation, none otherwise")
+	zzsym.Reach("c20.long")
 }
